@@ -192,6 +192,10 @@ func recoverAndCheck(res *core.Result, dir string, cfg kv.Cfg, bases []*kv.Model
 }
 
 func runC02(c *core.Ctx, res *core.Result) {
+	if c.Idx%8 == 7 {
+		c02Syscalls(c, res)
+		return
+	}
 	crashCaseOpts(c, res, nil, nil)
 }
 
@@ -292,7 +296,11 @@ func crashCaseOpts(c *core.Ctx, res *core.Result, only func(string) bool, tweak 
 			j := kv.ReadJournal(s.Journal)
 			feat := map[string]string{"crash_site": strings.Fields(j.Crash + " -")[0], "cycle": fmt.Sprint(cyc), "sync": fmt.Sprint(cfg.SyncMode), "clean": fmt.Sprint(j.Clean)}
 			what := fmt.Sprintf("config %s, cycle %d, armed crash %q (fired: %q), program seed %d tag %s", cfg, cyc, crash, j.Crash, s.Seed, s.Tag)
-			if !j.Opened {
+			if !j.Opened && j.Crash != "" {
+				// the kill fired while the database was being opened (recovery itself hits hook sites):
+				// a crash during recovery - no unit of this cycle was issued, the state must still be a base state
+				res.Count("kills_during_recovery", 1)
+			} else if !j.Opened {
 				res.Violate("recovery_open_failed", fmt.Sprintf("%s: the child could not open the database: %s %v\n%s", what, j.OpenErr, err, stderr), feat)
 				break
 			}
